@@ -102,7 +102,8 @@ def run_scenes(hr, d, name, scenes, chunk=20):
             one = os.path.join(d, '%s.crash%d.txt' % (name, gi))
             open(one, 'w').write(open(sf).read().splitlines()[sk] + '\n')
             rc1, out1 = V.run(['timeout', '-s', 'KILL', '600', hs, 'scenes', one, one + '.out', str(chunk)], timeout=700)
-            m = re.search(r'(\w+\.cpp):(\d+):\d+: runtime error', out1) or re.search(r'ERROR: AddressSanitizer: (\S+)', out1)
+            # (UBSan names file:line in its message; for an ASan report the site is the first library frame of the faulting access)
+            m = re.search(r'(\w+\.cpp):(\d+):\d+: runtime error', out1) or re.search(r'ERROR: AddressSanitizer[^\n]*\n(?:[^\n]*\n)?\s*#0 [^\n]*?/(\w+\.cpp):(\d+)', out1) or re.search(r'ERROR: AddressSanitizer: (\S+)', out1)
             site = ('memory-error@%s' % (m.group(1) + (':' + m.group(2) if m.lastindex > 1 else ''))) if m else 'not-reproduced-in-the-sanitizer-build'
             recs[gi]['what'] += ' [' + site + ']'
     json.dump({'chunk': chunk, 'LS': 1024, 'recs': recs}, open(os.path.join(d, name + '.json'), 'w'))
